@@ -14,6 +14,7 @@ import progs as P
 import values as V
 import c01_targeted as T
 import c06_ident as I
+import c06_layout as L
 
 COQ_FILES = ("L6_Conc/FsOps.v", "L6_Conc/LocalProgs.v", "L6_Conc/CrashProofs.v", "L6_Conc/SeqRefine.v", "L6_Conc/Recovery.v", "Properties/C06.v", "Properties/C06b.v")
 PROPERTY_FILES = ("C06", "C06b")
@@ -145,11 +146,26 @@ def run(rep, tier, seed, proof_ok):
                 "killed again before / in the middle of each of ITS operations (same or another pid), then probe + two recoveries "
                 "(quick: seeded sample of the pairs; thorough: all pairs over the distinct states); (D) seeded random chains of 2-4 "
                 "kills with pids drawn from small sets and versions changing in between, so that leftovers of every kind (temporary "
-                "blob, metadata, link, of several processes) are present when the next evaluation starts")
+                "blob, metadata, link, of several processes) are present when the next evaluation starts.  Third dimension, the LAYOUT "
+                "of the two directories with the crash points of STORE CREATION (c06_layout.py): the same histories on a volume where "
+                "the directories are {new siblings, data inside internal, internal inside data, both there and empty, nested and both "
+                "there, internal / data / the data directory around the internal one there with unrelated files, below deep parents "
+                "that do not exist, deep data below deep internal} (thorough: 7 more: one of the two there, trailing slashes, internal "
+                "a link to a directory, shared parent with unrelated files, ...), every operation under the volume being a crash point "
+                "(stat / mkdir of the parents included); per layout: uncrashed use with a code change and a process that only "
+                "configures the store (its operations are those of store creation); a kill before EVERY operation of store creation "
+                "and right after it, followed by probe + two recoveries under one pid and by recoveries under another pid with changed "
+                "code (thorough: by a process that only configures the store, then a recovery); double kills inside store creation (the "
+                "process that finds the half created store is killed in its own store creation; quick: seeded sample, thorough: all "
+                "pairs); kills at the operations of the first evaluation and of the re-keep with changed code (quick: seeded sample "
+                "spread over operation x object, thorough: all); expected values: plain execution, whatever the layout")
     rep.assumptions += ["kill -9 semantics: completed system calls are durable, in order (no power-loss reordering)",
                         "writes that do not go through Python's file objects (pyarrow) are not interposed; payloads are pickle/str/bytes",
                         "histories: the pid of a process is what os.getpid() answers in it (patched in the forked child that plays the process); "
-                        "a process started by fork from a parent that imported but never used dds stands for a newly started interpreter"]
+                        "a process started by fork from a parent that imported but never used dds stands for a newly started interpreter",
+                        "layouts: the volume that holds the two directories exists before the first process starts; directory listings (os.listdir / "
+                        "scandir) are not interposed: they are not crash points of their own (a kill before a read-only call leaves what a kill "
+                        "before the next interposed operation leaves)"]
     total, crashed = 0, 0
     real = {}
     for name in ("first-keep", "re-keep-changed"):
@@ -326,6 +342,10 @@ def identity_histories(rep, tier, seed, real):
                                             "pids": "1 everywhere | 31337 reused | 31337 then 31338 | 1 / 11 | chains: {1}, {1,11}, {5,6}, {70001,70002}",
                                             "code_versions": list(versions)})
     rep.sample({"history": I.double_kill("re-keep-changed", 41, False, 7, False)})
+    # third dimension: the layout of the two directories, with the crash points of store creation
+    t1 = time.time()
+    L.layout_histories(rep, tier, random.Random(f"{seed}:layouts"), ref)
+    rep.extra["input_distribution"]["wall_seconds_of_the_layout_histories"] = round(time.time() - t1, 1)
 
 
 def replay(path):
@@ -334,9 +354,11 @@ def replay(path):
         I._pipeline = pipeline
         try:
             ref = r.get("expected") or dict((v, plain_reference(v)) for v in sorted({st["v"] for st in r["history"]}))
-            res = I.run_history(r["history"], dict((int(k), v) for k, v in ref.items()))
+            res = I.run_history(r["history"], dict((int(k), v) for k, v in ref.items()), r.get("layout"))
         finally:
             I.close_servers()
+        if r.get("layout"):
+            print("layout:", json.dumps(r["layout"]))
         print(I.describe(r["history"], res))
         print("problems:", res["problems"] or "none")
         return 1 if res["problems"] else 0
